@@ -410,6 +410,9 @@ func (c *fragCtx) trRange(x *ast.RangeStmt, label string, after []ast.Stmt, k fu
 	if x.Tok != token.DEFINE && (x.Key != nil || x.Value != nil) {
 		return c.fail("range assigning to existing variables")
 	}
+	if mt, isMap := c.typeOf(x.X).Underlying().(*types.Map); isMap {
+		return c.mapLoop(x, mt, label, after, k)
+	}
 	sl, ok := c.typeOf(x.X).Underlying().(*types.Slice)
 	if !ok {
 		return c.fail("range over a non-slice")
@@ -427,6 +430,81 @@ func (c *fragCtx) trRange(x *ast.RangeStmt, label string, after []ast.Stmt, k fu
 		return c.withPre(pre, c.listLoop(label, slice, sl.Elem(), identName(x.Key), identName(x.Value), x.Body.List, after, k))
 	}
 	return c.listLoop(label, slice, sl.Elem(), identName(x.Key), identName(x.Value), x.Body.List, after, k)
+}
+
+// mapLoop: `for k, v := range m` over a map.  The map is the association list of its entries IN THE ORDER THIS
+// ITERATION VISITS THEM (Go leaves the order open: every statement proved about the translation is proved for every
+// list, hence for every order).  The loop is the recursion over that list, taken once when the loop starts.  This is
+// Go's meaning provided the body adds no entry to m and removes none that has not been visited yet; the only mutations
+// of m accepted in the body are therefore `delete(m, k)` and `m[k] = e` with k the range key itself (removing or
+// overwriting the entry being visited), anything else is outside the fragment.
+func (c *fragCtx) mapLoop(x *ast.RangeStmt, mt *types.Map, label string, after []ast.Stmt, k func() string) string {
+	mid, ok := x.X.(*ast.Ident)
+	if !ok {
+		return c.fail("range over a map expression")
+	}
+	keyName, valName := identName(x.Key), identName(x.Value)
+	bad := ""
+	ast.Inspect(x.Body, func(n ast.Node) bool {
+		switch s := n.(type) {
+		case *ast.AssignStmt:
+			for _, l := range s.Lhs {
+				if id, ok := l.(*ast.Ident); ok && id.Name == mid.Name && s.Tok != token.DEFINE {
+					bad = "the ranged map is assigned in the loop"
+				}
+				if ie, ok := l.(*ast.IndexExpr); ok {
+					if id, ok := ie.X.(*ast.Ident); ok && id.Name == mid.Name {
+						if kid, ok := ie.Index.(*ast.Ident); !ok || kid.Name != keyName || keyName == "_" {
+							bad = "the ranged map is stored to under a key other than the range key"
+						}
+					}
+				}
+			}
+		case *ast.IncDecStmt:
+			if ie, ok := s.X.(*ast.IndexExpr); ok {
+				if id, ok := ie.X.(*ast.Ident); ok && id.Name == mid.Name {
+					bad = "the ranged map is updated in the loop"
+				}
+			}
+		case *ast.CallExpr:
+			if id, ok := s.Fun.(*ast.Ident); ok && id.Name == "delete" && len(s.Args) == 2 {
+				if m2, ok := s.Args[0].(*ast.Ident); ok && m2.Name == mid.Name {
+					if kid, ok := s.Args[1].(*ast.Ident); !ok || kid.Name != keyName || keyName == "_" {
+						bad = "delete from the ranged map under a key other than the range key"
+					}
+				}
+			}
+		}
+		return true
+	})
+	if bad != "" {
+		return c.fail("%s", bad)
+	}
+	// the range key must not be reassigned in the body (it designates the visited entry)
+	asgd, _ := c.assignedIn(x.Body.List)
+	for _, v := range asgd {
+		if v == keyName || v == valName {
+			return c.fail("range variable assigned in the loop")
+		}
+	}
+	kn, vn := keyName, valName
+	if kn == "" || kn == "_" {
+		kn = "k_"
+	}
+	if vn == "" || vn == "_" {
+		vn = "v_"
+	}
+	sp := loopSpec{
+		label:    label,
+		argTypes: []string{"List (" + c.leanType(mt.Key()) + " × " + c.leanType(mt.Elem()) + ")"},
+		basePat:  []string{"[]"},
+		stepPat:  []string{"(" + lv(kn) + ", " + lv(vn) + ") :: rest_"},
+		recArgs:  "rest_",
+		initArgs: lv(mid.Name),
+		bound:    []string{kn, vn},
+		body:     x.Body.List,
+	}
+	return c.emitLoop(sp, after, k)
 }
 
 func mentions(e ast.Node, names map[string]bool) bool {
